@@ -32,6 +32,11 @@ type SrvNegCase struct {
 	// which handler result that cannot fit in the agreed msize is tried: 0 an Rread, 1 an error
 	// whose text is longer than msize, 2 an Rstat with long names, 3 an Rwalk with too many qids
 	BigReply int `json:",omitempty"`
+	// Silent: the client says nothing for longer than the server's negotiation window (1 s, run
+	// 100 times faster on this connection) and only then sends its first message, which is not a Tversion
+	Silent bool `json:",omitempty"`
+	// Reneg != 0: after the handshake the client sends a second Tversion proposing this msize
+	Reneg uint32 `json:",omitempty"`
 }
 
 func genMSize(t *rapid.T, label string) uint32 {
@@ -49,6 +54,15 @@ func GenSrvNeg(t *rapid.T) SrvNegCase {
 	c.Version = rapid.OneOf(rapid.Just(harn.B("9P2000")), rapid.Just(harn.B("9P2000")), rapid.SampledFrom([]harn.B{harn.B("9P2000.u"), harn.B("unknown"), nil, harn.B("9P1999"), harn.B("9p2000")}),
 		rapid.Custom(func(t *rapid.T) harn.B { return harn.B(rapid.SliceOfN(rapid.Byte(), 0, 12).Draw(t, "v")) })).Draw(t, "version")
 	c.BigReply = rapid.IntRange(0, 3).Draw(t, "bigreply")
+	if rapid.IntRange(0, 5).Draw(t, "renegp") == 0 {
+		c.Reneg = genMSize(t, "reneg")
+		if c.Reneg == 0 {
+			c.Reneg = 1
+		}
+	}
+	if rapid.IntRange(0, 24).Draw(t, "silent") == 0 {
+		c.Silent = true
+	}
 	if rapid.IntRange(0, 7).Draw(t, "notversion") == 0 {
 		c.NotVersion = true
 		c.FirstKind = rapid.SampledFrom([]uint8{refwire.Tattach, refwire.Tauth, refwire.Rversion, refwire.Tclunk, refwire.Tflush, refwire.Tread}).Draw(t, "firstkind")
@@ -69,9 +83,12 @@ func minInt(a, b int) int {
 func rapid_pad(propose uint32) int { return []int{-8, -7, 0, 1, 50}[propose%5] }
 
 func RunSrvNeg(c SrvNegCase) harn.Result {
-	a, b := memconn.NewPair(memconn.Options{Rendezvous: c.Rendezvous})
+	a, b := memconn.NewPair(memconn.Options{Rendezvous: c.Rendezvous, HonorDeadlines: c.Silent})
 	defer a.Close()
 	defer b.Close()
+	if c.Silent {
+		b.ScaleReadDeadlines(100)
+	}
 	h := server.NewHandler()
 	ctx, cancel := context.WithCancel(context.Background())
 	defer cancel()
@@ -102,6 +119,12 @@ func RunSrvNeg(c SrvNegCase) harn.Result {
 		res.NonTrivial = true
 		res.Classes = append(res.Classes, "refused_"+why)
 		return res
+	}
+	if c.Silent {
+		time.Sleep(60 * time.Millisecond) // six negotiation windows
+		go p.Send(&refwire.Msg{Kind: refwire.Tattach, Tag: 1, Fid: 1, Afid: ^uint32(0), Uname: harn.B("u")})
+		time.Sleep(5 * time.Millisecond)
+		return refused("silent_during_negotiation_window")
 	}
 	if c.NotVersion {
 		m := refwire.Msg{Kind: c.FirstKind, Tag: 1, Fid: 1, Afid: ^uint32(0), Uname: harn.B("u"), Count: 5}
@@ -142,6 +165,43 @@ func RunSrvNeg(c SrvNegCase) harn.Result {
 		res.NonTrivial = true
 	}
 	res.Classes = append(res.Classes, "negotiated")
+	if c.Reneg != 0 && agreed >= 64 {
+		// (only where an error reply fits in the agreed msize)
+		// a second Tversion in mid-connection: the server may turn it down or accept it, but what
+		// it answers is what both directions must honour from then on
+		before := h.Count()
+		p.Send(&refwire.Msg{Kind: refwire.Tversion, Tag: 0xFFFF, MSize: c.Reneg, Version: harn.B("9P2000")})
+		// the server either answers it itself or hands it to the handler like any request
+		var rf peer.Frame
+		var ok bool
+		var err error
+		for waited := 0; waited < 2000; waited++ {
+			if rf, ok, err = p.Next(5 * time.Millisecond); ok {
+				break
+			}
+			if inv := h.WaitFor(before, func(i *server.Invocation) bool { return true }, time.Millisecond); inv != nil {
+				inv.Release(server.Outcome{ErrText: "no renegotiation"})
+				before = h.Count()
+			}
+		}
+		switch {
+		case !ok:
+			return fail("no reply to a second Tversion (msize %d): %v", c.Reneg, err)
+		case rf.Msg != nil && rf.Msg.Kind == refwire.Rerror:
+			res.Classes = append(res.Classes, "second_tversion_refused")
+		case rf.Msg != nil && rf.Msg.Kind == refwire.Rversion:
+			if rf.Msg.MSize > c.Reneg || rf.Msg.MSize > serverMax {
+				return fail("second Tversion proposing %d answered with msize %d", c.Reneg, rf.Msg.MSize)
+			}
+			if len(rf.Raw) > int(agreed) && len(rf.Raw) > int(rf.Msg.MSize) {
+				return fail("the second Rversion frame (%d bytes) exceeds both the old (%d) and the new (%d) msize", len(rf.Raw), agreed, rf.Msg.MSize)
+			}
+			agreed = rf.Msg.MSize
+			res.Classes = append(res.Classes, "second_tversion_accepted")
+		default:
+			return fail("second Tversion answered with %s", kindName(rf.Msg))
+		}
+	}
 	// maximal traffic.  1. a Twrite of exactly the agreed size reaches the handler intact
 	if agreed >= 24 {
 		n := int(agreed) - 23
@@ -349,6 +409,15 @@ func RunCliNeg(c CliNegCase) harn.Result {
 			_, err := sess.Walk(ctx, 1, 2, long, long)
 			return err
 		}},
+		{"walk_big", func(req *refwire.Msg) *refwire.Msg { return &refwire.Msg{Kind: refwire.Rwalk, Tag: req.Tag} }, func(ctx context.Context) error {
+			// 16 names whose lengths add up to more than 65535 bytes: no msize can carry this request
+			names := make([]string, 16)
+			for i := range names {
+				names[i] = strings.Repeat("w", 4094+int(c.Answer%400))
+			}
+			_, err := sess.Walk(ctx, 1, 2, names...)
+			return err
+		}},
 		{"attach", func(req *refwire.Msg) *refwire.Msg { return &refwire.Msg{Kind: refwire.Rattach, Tag: req.Tag} }, func(ctx context.Context) error {
 			_, err := sess.Attach(ctx, 1, p9p.NOFID, long, "")
 			return err
@@ -405,6 +474,18 @@ func RunCliNeg(c CliNegCase) harn.Result {
 			res.Classes = append(res.Classes, "refused_"+cl.name)
 		}
 	}
+	// frames nobody asked for, after a negotiation that may have left the client with a tiny
+	// msize: a reply with an unknown tag, then a frame one byte beyond the agreed size.  The
+	// client may drop them or give the session up; it must not crash (the driver reports a
+	// killed process).
+	srv.Send(&refwire.Msg{Kind: refwire.Rclunk, Tag: 77})
+	over := agreed + 1 - 11
+	if over < 0 {
+		over = 0
+	}
+	go srv.Send(&refwire.Msg{Kind: refwire.Rread, Tag: 78, Blob: harn.Blob{N: over, K: 1}})
+	time.Sleep(3 * time.Millisecond)
+	res.Classes = append(res.Classes, "unsolicited_frames_after_negotiation")
 	return res
 }
 
